@@ -145,7 +145,7 @@ func checkC13(e *RunEnv) *CheckResult {
 			{"ignore-without-slash-entries", append(seedS1(), Write(".goitignore", "*.log\n"), Write("old.log/t", "tracked beneath a directory named like a log\n"), Write("out/t", "tracked beneath out\n"), Run("add", "a"),
 				Write("old.log/u", "untracked\n"), Write("sub/old.log/u", "untracked\n"), Write("out/u", "untracked\n"), Write("x.log", "ignored\n"))},
 			{"S1+ignored-files-with-later-siblings", append(seedS1(), Write(".goitignore", "build/\n*.log\n"), Write("x.log", "l\n"), Write("y-later", "u\n"), Write("z-later/f", "u\n"), Write("sub/y.log", "l\n"), Write("sub/z-later", "u\n"), Write("build/o", "o\n"), Write("c-after-build", "u\n"))}},
-		Depth: e.depth(3, 5),
+		Depth: e.depth(3, 6),
 		Steps: func(n *Node) []Step {
 			a := n.Abs()
 			var steps []Step
